@@ -516,16 +516,29 @@ def repo_prims(repo, base=None, unroll=64):
                     names = None
                 if names is not None:
                     syms = [T.sym("NUM_@%s@%d" % (name, i)) for i in range(len(names))]
+                    dfl = [None] * (len(names) - len(fn.args.defaults))
+                    for d_ in fn.args.defaults:
+                        if isinstance(d_, ast.Constant) and isinstance(d_.value, (int, float)) and not isinstance(d_.value, bool):
+                            dfl.append(Fraction(str(d_.value)))
+                        elif isinstance(d_, ast.Constant) and isinstance(d_.value, bool):
+                            dfl.append(d_.value)
+                        else:
+                            dfl.append(None)
                     try:
-                        cache[name] = (syms, ret_term(repo, mod, q, arg_terms=dict(zip(names, syms)), unroll=unroll))
+                        cache[name] = (syms, ret_term(repo, mod, q, arg_terms=dict(zip(names, syms)), unroll=unroll), dfl)
                     except Exception:
                         cache[name] = None
         ent = cache[name]
-        if ent is None or len(t) - 2 != len(ent[0]):
+        if ent is None or len(t) - 2 > len(ent[0]) or any(a_[0] == "kw" for a_ in t[2:]):
             return None
         e2 = {"$memo": {}}
-        for s_, a_ in zip(ent[0], t[2:]):
-            e2[s_] = eval_exact(a_, env, prims)
+        for i_, s_ in enumerate(ent[0]):
+            if i_ < len(t) - 2:
+                e2[s_] = eval_exact(t[2 + i_], env, prims)
+            elif ent[2][i_] is not None:
+                e2[s_] = ent[2][i_]
+            else:
+                return None
         return eval_exact(ent[1], e2, prims)
     return prims
 
